@@ -241,7 +241,19 @@ fn run_input(mode: Mode, b: u64, s: u64, input: &Input, seed: u64) -> (String, O
                     let v = violation_line(b, s, input, sig, format!("AsepriteFile::read panicked: {} at {}", p.message, p.location), json!({"frame": p.asefile_frame, "in_library": p.in_library()}));
                     ("load-panic".into(), Some(v), String::new())
                 }
-                Ok(Err(e)) => (err_variant(&e).to_string(), None, String::new()),
+                Ok(Err(e)) => {
+                    // the error value itself must be usable: Display, Debug and source() return normally
+                    let r = guarded(|| {
+                        let _ = e.to_string();
+                        let _ = format!("{:?}", e);
+                        let _ = std::error::Error::source(&e).map(|s| s.to_string());
+                    });
+                    if let Err(p) = r {
+                        let v = violation_line(b, s, input, format!("error-value-{}", p.signature()), format!("formatting the returned error panicked: {}", p.message), json!({}));
+                        return ("error-value-panic".into(), Some(v), String::new());
+                    }
+                    (err_variant(&e).to_string(), None, String::new())
+                }
                 Ok(Ok(ase)) => {
                     if mode == Mode::Load {
                         return ("Ok".into(), None, String::new());
